@@ -18,6 +18,9 @@ KEEP_CACHED = {'_range2parts'}
 def unwrap_lru(prefix='formulas'):
     import formulas  # noqa
     import formulas.excel  # noqa
+    import formulas.parser  # noqa
+    from formulas.functions import get_functions
+    get_functions()          # imports every functions.* submodule (they are loaded lazily)
     done = []
     wrappers = {}
     for name, mod in list(sys.modules.items()):
